@@ -236,8 +236,117 @@ func unspill(v ssa.Value) ssa.Value {
 				return st.Val
 			}
 		}
+		// a field of a local record (t.value where t is built and adjusted field by field): the
+		// value of the one store that reaches this load on every path
+		if fa, ok := u.X.(*ssa.FieldAddr); ok {
+			if al, ok := fa.X.(*ssa.Alloc); ok {
+				if val := reachingFieldStore(u, al, fa.Field); val != nil {
+					return val
+				}
+			}
+		}
 	}
 	return v
+}
+
+var reachingMemo = map[*ssa.UnOp]ssa.Value{}
+var reachingDone = map[*ssa.UnOp]bool{}
+
+// reachingFieldStore: load reads field `field` of the local struct al.  If the local does not
+// escape (it is only accessed field-wise, loaded as a whole or stored as a whole) and on every
+// path from the function entry to the load the last store into that field is one and the same
+// Store instruction, its value is returned; otherwise nil.
+func reachingFieldStore(load *ssa.UnOp, al *ssa.Alloc, field int) ssa.Value {
+	if reachingDone[load] {
+		return reachingMemo[load]
+	}
+	reachingDone[load] = true
+	if al.Referrers() == nil {
+		return nil
+	}
+	if _, isStruct := deref(al.Type()).Underlying().(*types.Struct); !isStruct {
+		return nil
+	}
+	// stores into the cell; anything that lets the address escape makes the content unknown
+	stores := map[ssa.Instruction]ssa.Value{}
+	for _, ref := range *al.Referrers() {
+		switch x := ref.(type) {
+		case *ssa.UnOp, *ssa.DebugRef:
+		case *ssa.Store:
+			if x.Addr != ssa.Value(al) {
+				return nil // the address is stored somewhere
+			}
+			stores[x] = nil // whole-struct assignment: content unknown from here on
+		case *ssa.FieldAddr:
+			if x.Referrers() == nil {
+				continue
+			}
+			for _, r2 := range *x.Referrers() {
+				switch y := r2.(type) {
+				case *ssa.Store:
+					if y.Addr != ssa.Value(x) {
+						return nil
+					}
+					if x.Field == field {
+						stores[y] = y.Val
+					}
+				case *ssa.UnOp, *ssa.DebugRef:
+				default:
+					if x.Field == field {
+						return nil // &t.f handed on, nested access
+					}
+				}
+			}
+		default:
+			return nil // &t passed to a call, captured by a closure …
+		}
+	}
+	if len(stores) == 0 {
+		return nil
+	}
+	// backward search for the last store on every path
+	var found ssa.Instruction
+	failed := false
+	seen := map[*ssa.BasicBlock]bool{}
+	var scan func(b *ssa.BasicBlock, from int)
+	scan = func(b *ssa.BasicBlock, from int) {
+		if failed {
+			return
+		}
+		for i := from; i >= 0; i-- {
+			in := b.Instrs[i]
+			if _, isStore := stores[in]; isStore {
+				if found != nil && found != in {
+					failed = true
+				}
+				found = in
+				return
+			}
+		}
+		if len(b.Preds) == 0 {
+			failed = true // the zero value reaches the load
+			return
+		}
+		for _, p := range b.Preds {
+			if seen[p] {
+				continue
+			}
+			seen[p] = true
+			scan(p, len(p.Instrs)-1)
+		}
+	}
+	idx := -1
+	for i, in := range load.Block().Instrs {
+		if in == ssa.Instruction(load) {
+			idx = i
+		}
+	}
+	scan(load.Block(), idx-1)
+	if failed || found == nil || stores[found] == nil {
+		return nil
+	}
+	reachingMemo[load] = stores[found]
+	return stores[found]
 }
 
 // singleStore returns the only Store into the alloc (nil if there are none or several, or
@@ -625,6 +734,13 @@ func expandCond(v ssa.Value, truth bool, out *[]condFact, depth int) {
 		if u, ok := v.(*ssa.UnOp); ok && u.Op == token.NOT {
 			v, truth = u.X, !truth
 			continue
+		}
+		// a flag kept in a local (or in a field of a local record) and tested later
+		if u, ok := v.(*ssa.UnOp); ok && u.Op == token.MUL {
+			if r := unspill(v); r != v {
+				v = r
+				continue
+			}
 		}
 		break
 	}
